@@ -296,7 +296,9 @@ class Session:
                 if after_error and "E2" in self.oracles:
                     # C14: "an error leaves all operands usable" — the failing call changed a contract / list it was given (or another pool member)
                     self.violate(step_i, op, "E2", {"what": "pool member %s changed by a call that raised" % slot, "before": self.snap[slot], "after": now}, "operand changed by a failing call")
-                self.snap[slot] = now  # report once
+                # report once, then put the member back as it was so that the rest of the session (and the step
+                # generator, which reads the canonical pool) keeps running on well-formed objects
+                self.pool[slot] = cn.rebuild(self.snap[slot])
 
     def check_modstate(self, step_i: int, op: str, when: str) -> None:
         now = modstate()
